@@ -92,6 +92,7 @@ def build(r, name, n=None, generics=None):
         spec.extra_enum_attrs = ["#[strum_discriminants(%s)]" % it for it in items]
     else:
         spec.extra_enum_attrs = ["#[strum_discriminants(%s)]" % ", ".join(items)]
+    gen.add_noise(r, spec, skip=("std_default",))
     spec.tags = ["vis=%s" % spec.dvis, "private" if spec.enum_private else "pub", "name" if spec.dname else "defname"]
     return spec
 
